@@ -76,6 +76,10 @@ def build(top, ctx):
         sk = dict(jobs_window=node['window'], timeout=node['timeout'],
                   shutdown_timeout=node['sd_timeout'],
                   verbose=node['verbose'])
+        late = None
+        if node.get('late_attrs'):
+            # the documented attributes assigned after construction
+            late, sk = sk, {}
         if node['cls'] == 'PureScheduler':
             assert is_top
             cls, jk = w.SimPureScheduler, {}
@@ -96,11 +100,12 @@ def build(top, ctx):
             for i, m in enumerate(members):
                 objs.append(make(m, False,
                                  required=[objs[a] for a in reqs[i]]))
-            return cls(*objs, ctx=ctx, spec=node, **sk, **jk)
+            return _late(cls(*objs, ctx=ctx, spec=node, **sk, **jk), late)
         if style == 'sequence':
             objs = [make(m, False) for m in members]
-            return cls(Sequence(*objs), ctx=ctx, spec=node, **sk, **jk)
-        sched = cls(ctx=ctx, spec=node, **sk, **jk)
+            return _late(cls(Sequence(*objs), ctx=ctx, spec=node, **sk, **jk),
+                         late)
+        sched = _late(cls(ctx=ctx, spec=node, **sk, **jk), late)
         objs = []
         if style == 'add':
             for i, m in enumerate(members):
@@ -127,6 +132,15 @@ def build(top, ctx):
         if parent is not None:
             ctx.parent_of[node['id']] = parent['id']
     return obj
+
+
+def _late(sched, late):
+    if late:
+        sched.jobs_window = late['jobs_window']
+        sched.timeout = late['timeout']
+        sched.shutdown_timeout = late['shutdown_timeout']
+        sched.verbose = late['verbose']
+    return sched
 
 
 def _is_chain(sched):
